@@ -19,7 +19,7 @@ def _git_wt(*args, check=False):
 
 change_dir = Path(sys.argv[1]); prop = sys.argv[2]; name = sys.argv[3]
 # commits of /repo the stored changes were written for (newest first): round 3, rounds 1+2, before the lazy-logging repair
-BASE_COMMITS = ["51ed23f", "2c61668", "8fb63a3", "1e5babd", "cc14e90", "d3ce8dc"]
+BASE_COMMITS = ["eeb141a", "51ed23f", "2c61668", "8fb63a3", "1e5babd", "cc14e90", "d3ce8dc"]
 no_suite = "--no-suite" in sys.argv
 recheck = "--recheck" in sys.argv and (change_dir / "verification.json").exists()
 wt = Path("/tmp/vwt") / name
